@@ -1905,6 +1905,49 @@ class PictureNumberChangedMidFragmentedPicture(ConformanceError):
         )
 
 
+class FragmentedPictureMissingInitialFragment(ConformanceError):
+    """
+    (14.2) A fragment containing picture slices (fragment_slice_count != 0)
+    must be preceded, in the same sequence, by a fragment with
+    fragment_slice_count == 0 carrying the transform parameters.
+
+    The (byte_offset, next_bit_offset) offset of the offending fragment's
+    header is included as an argument along with its fragment_slice_count.
+    """
+
+    def __init__(self, this_fragment_offset, fragment_slice_count):
+        self.this_fragment_offset = this_fragment_offset
+        self.fragment_slice_count = fragment_slice_count
+        super(FragmentedPictureMissingInitialFragment, self).__init__()
+
+    def explain(self):
+        return """
+            A picture fragment containing slices was encountered before any
+            fragment with fragment_slice_count=0 (14.2).
+
+            The fragment at bit offset {} contains {} slice{} but no
+            fragmented picture has been started in this sequence. Every
+            fragmented picture must begin with a fragment whose
+            fragment_slice_count is 0 (containing the transform parameters).
+        """.format(
+            to_bit_offset(*self.this_fragment_offset),
+            self.fragment_slice_count,
+            "s" if self.fragment_slice_count != 1 else "",
+        )
+
+    def bitstream_viewer_hint(self):
+        return """
+            To view the offending part of the bitstream:
+
+                {{cmd}} {{file}} --offset {} --show fragment_parse --hide slice
+        """.format(
+            to_bit_offset(*self.this_fragment_offset),
+        )
+
+    def offending_offset(self):
+        return to_bit_offset(*self.this_fragment_offset)
+
+
 class TooManySlicesInFragmentedPicture(ConformanceError):
     """
     (14.2) A fragmented picture must not contain more slices than necessary.
